@@ -21,6 +21,7 @@ import (
 	"strconv"
 	"strings"
 	"sync"
+	"sync/atomic"
 	"time"
 
 	"github.com/samber/ro"
@@ -236,8 +237,59 @@ func runRateCase(c *Case) string {
 		return runRateRT(c)
 	case "ulule":
 		return runRateUlule(c)
+	case "native-twin":
+		return runRateTwin(c)
 	}
 	return "res " + c.id + " unsupported"
+}
+
+// op=native-twin: ONE limiter value applied to two sources. Subscription A (first) lives on a source that emits one item and
+// stays open, under a context of its own; subscription B receives k items of one key, spaced more than a window apart (so
+// each falls into a window of its own and passes a quota of 1). After B's first item A goes away (how=cancel: its context is
+// cancelled; how=unsub: it is unsubscribed). Nothing of that is B's business: B delivers its k items and completes.
+func runRateTwin(c *Case) string {
+	setRecorder(nil)
+	k, _ := strconv.Atoi(c.get("k", "5"))
+	w := 3 * time.Millisecond
+	op := rlnative.NewRateLimiter[rlItem](1, w, rlKey)
+	ctxA, cancelA := context.WithCancel(context.Background())
+	defer cancelA()
+	srcA := ro.NewObservableWithContext(func(ctx context.Context, dest ro.Observer[rlItem]) ro.Teardown {
+		dest.NextWithContext(ctx, rlItem{0, 100})
+		return nil
+	})
+	subA := op(srcA).SubscribeWithContext(ctxA, ro.NoopObserver[rlItem]())
+	var items int32
+	term := make(chan string, 2)
+	ready := make(chan ro.Observer[rlItem], 1)
+	srcB := ro.NewObservableWithContext(func(ctx context.Context, dest ro.Observer[rlItem]) ro.Teardown {
+		ready <- dest
+		return nil
+	})
+	subB := op(srcB).Subscribe(ro.NewObserver(func(rlItem) { atomic.AddInt32(&items, 1) },
+		func(error) { term <- "E" }, func() { term <- "C" }))
+	destB := <-ready
+	destB.Next(rlItem{0, 1})
+	time.Sleep(w + 2*time.Millisecond)
+	if c.get("how", "cancel") == "cancel" {
+		cancelA()
+	} else {
+		subA.Unsubscribe()
+	}
+	for i := 2; i <= k; i++ {
+		time.Sleep(w + 2*time.Millisecond)
+		destB.Next(rlItem{0, i})
+	}
+	time.Sleep(w + 2*time.Millisecond)
+	destB.Complete()
+	t := "-"
+	select {
+	case t = <-term:
+	case <-time.After(time.Second):
+	}
+	subB.Unsubscribe()
+	subA.Unsubscribe()
+	return fmt.Sprintf("res %s items=%d term=%s", c.id, atomic.LoadInt32(&items), t)
 }
 
 func runRateLog(c *Case) string {
@@ -674,6 +726,13 @@ func genRate(tier string, seed int64, only string) []*Case {
 		}
 	}
 
+	if only == "" || only == "native-twin" {
+		for rep := 0; rep < 3; rep++ {
+			for _, how := range []string{"cancel", "unsub"} {
+				emit("op", "native-twin", "how", how, "k", "5")
+			}
+		}
+	}
 	if only == "" || only == "ulule" {
 		alpha := []rlEv{{k: 0}, {k: 1}}
 		maxLen := 4
